@@ -492,6 +492,7 @@ func refsOf(x excellent.Expression) []refAt {
 				if strings.EqualFold(b, t.Name) {
 					d = "bound-parameter-" + d
 					where = ""
+					break
 				}
 			}
 			out = append(out, refAt{where, d})
